@@ -64,7 +64,7 @@ def configurations(tier):
 
 def rewrite(recs, d):
     """Rewrite ':' inside all strings to the delimiter d."""
-    if d == ":":
+    if d in (":", ""):
         return list(recs)
     f = lambda s: s.replace(":", d)  # noqa
     return [mrec(f(r.prefix), f(r.uri_prefix), [f(s) for s in r.psyn], [f(s) for s in r.usyn], r.pattern) for r in recs]
@@ -186,7 +186,7 @@ def sweep_units(tier):
     return out
 
 
-def units(tier, seed, nchunks=128, hist_depth=None, delim_in_prefix=False, hook=False, shared_records=False, prefix_subclass=False):
+def units(tier, seed, nchunks=128, hist_depth=None, delim_in_prefix=False, hook=False, shared_records=False, prefix_subclass=False, empty_delim=False):
     cfgs = configurations(tier)
     out = [{"tier": tier, "cfgs": [recs_to_json(c) for c in ch]} for ch in chunks(cfgs, nchunks)]
     out.extend(sweep_units(tier))
@@ -196,6 +196,9 @@ def units(tier, seed, nchunks=128, hist_depth=None, delim_in_prefix=False, hook=
     # nested URI prefixes of which one is a synonym (so that standardisation is observable), across two records and inside one
     small += [[mrec("x", "X", [], ["a:x"]), mrec("", "a:")], [mrec("x", "a:", [], ["y"]), mrec("", "X", [], ["a:x"])], [mrec("x", "a:", [], ["a:x"])], [mrec("x", "a:x", [], ["a:"])]]
     out.append({"tier": tier, "cfgs": [recs_to_json(c) for c in small], "delims": EXOTIC_DELIMS, "qlen": 2})
+    if empty_delim:
+        # the empty string as delimiter: no string can be split, which is a miss like any other (only for C08, whose oracle is the mode matrix)
+        out.append({"tier": tier, "cfgs": [recs_to_json(c) for c in small[:40]], "delims": [""], "qlen": 2, "mode": "ctor"})
     if delim_in_prefix:
         out.append({"tier": tier, "cfgs": [recs_to_json(c) for c in dip_configs()], "delims": DELIMS})
     if shared_records:
